@@ -23,4 +23,36 @@ theorem two_site_update_conserves_norm {N d : Type} [Fintype N] [Fintype d] [Dec
       = star (E *ᵥ φ) ⬝ᵥ (E *ᵥ φ) :=
   Ptn.C06.local_update_conserves_norm E H hE hH t φ
 
+/-! ### Value level: two-site update of a state canonical at the updated pair -/
+
+open Ptn.Ein in
+/-- **Two-site update (truncation disabled), state canonical at one node of the updated pair: the norm is
+conserved.**  The local tensor is the contraction of the two neighbouring nodes; `k`: the sub-trees around
+BOTH nodes (everything except the pair), every node canonical toward the pair — which is what canonical form
+at either node of the pair gives, the other node of the pair being absorbed into the local tensor; `P`: the
+open legs of both nodes.  The embedding `E = envMatrix ⊗ 1_P` is built from the network; its isometry is
+`Ptn.Ein.embedding_isometry_of_canonical`, not a hypothesis. -/
+theorem two_site_update_conserves_norm_of_canonical {L : Type} [DecidableEq L] (dim : L → Nat) (pr : L → L)
+    (hinj : Function.Injective pr) (hdim : ∀ l, dim (pr l) = dim l) (k : Kids L ℂ)
+    (hc : k.Canon dim) (hnd : k.labels.Nodup) (hk : k.IsConj pr)
+    (P : Type) [Fintype P] [DecidableEq P]
+    (H : Matrix (Idx dim k.physAll × P) (Idx dim k.physAll × P) ℂ) (hH : H.conjTranspose = H)
+    (t : ℝ) (φ : Idx dim k.ups × P → ℂ) :
+    let E := Ptn.C06.siteEmbedding dim k P
+    star (E.mulVec ((NormedSpace.exp ((-Complex.I * (t : ℂ)) • (E.conjTranspose * H * E))).mulVec φ)) ⬝ᵥ
+        (E.mulVec ((NormedSpace.exp ((-Complex.I * (t : ℂ)) • (E.conjTranspose * H * E))).mulVec φ))
+      = star (E.mulVec φ) ⬝ᵥ (E.mulVec φ) :=
+  Ptn.C06.one_site_update_conserves_norm_of_canonical dim pr hinj hdim k hc hnd hk P H hH t φ
+
+open Ptn.Ein in
+/-- the premises are satisfiable: the demo tree of `Ptn.C06.Demo` read as the surroundings of a pair whose
+two nodes carry the bonds `(5, 15)` and `(7, 17)`; the open legs of the pair: dimensions 2 and 3 -/
+example : Ptn.C06.Demo.kids.Canon Ptn.C06.Demo.dim ∧ Ptn.C06.Demo.kids.labels.Nodup ∧
+    Ptn.C06.Demo.kids.IsConj Ptn.C06.Demo.pr ∧ Function.Injective Ptn.C06.Demo.pr ∧
+    (∀ l, Ptn.C06.Demo.dim (Ptn.C06.Demo.pr l) = Ptn.C06.Demo.dim l) ∧
+    ((1 : Matrix (Idx Ptn.C06.Demo.dim Ptn.C06.Demo.kids.physAll × (Fin 2 × Fin 3))
+      (Idx Ptn.C06.Demo.dim Ptn.C06.Demo.kids.physAll × (Fin 2 × Fin 3)) ℂ)).conjTranspose = 1 :=
+  ⟨Ptn.C06.Demo.kids_canon, Ptn.C06.Demo.kids_nodup, Ptn.C06.Demo.kids_isConj, Ptn.C06.Demo.pr_inj,
+    Ptn.C06.Demo.dim_pr, Matrix.conjTranspose_one⟩
+
 end Ptn.C07
